@@ -25,7 +25,7 @@ func genC05(t *rapid.T, kinds []string) C05Scn {
 	} else {
 		n := rapid.IntRange(0, 12).Draw(t, "nchunks")
 		for i := 0; i < n; i++ {
-			s.Prog.Chunks = append(s.Prog.Chunks, ProdChunk{Len: rapid.OneOf(rapid.SampledFrom([]int{0, 1, 100, 65535, 65536, 65537, 70000, 200000}), rapid.IntRange(0, 5000)).Draw(t, "len"),
+			s.Prog.Chunks = append(s.Prog.Chunks, ProdChunk{Len: rapid.OneOf(rapid.SampledFrom([]int{0, 1, 100, 65535, 65536, 65537, 70000, 200000, 1100000}), rapid.IntRange(0, 5000)).Draw(t, "len"),
 				DelayMs: rapid.SampledFrom([]int{0, 0, 0, 50, 300, 1100}).Draw(t, "delay")})
 		}
 		s.Prog.Final = rapid.SampledFrom([]int{2, 2, 3}).Draw(t, "final")
@@ -47,7 +47,7 @@ func genC05(t *rapid.T, kinds []string) C05Scn {
 	return s
 }
 
-const c05Rule = "producer programmes (0-12 writes of 0-200000 bytes with delays 0-1.1 s, final Succeeded/Failed, optional pause before the final status; or real command units printing 0-20000 9-byte records per segment with sleeps and exit codes 0/1/3); " +
+const c05Rule = "producer programmes (0-12 writes of 0-1100000 bytes (outputs beyond 10^6 bytes, where a JSON number prints in exponent form, in about a third of the programmes) with delays 0-1.1 s, final Succeeded/Failed, optional pause before the final status; or real command units printing 0-20000 9-byte records per segment with sleeps and exit codes 0/1/3); " +
 	"1-5 result requests at drawn times (before, during, after the producer) from offsets {0, write boundaries +-1, size-1, size, random, multiples of 64 KiB +-1}, plain and JSON form; oracle: the bytes after the 'Streaming results' line equal output[p:], " +
 	"the server closes the stream, never before everything was sent, and does close it after the unit finished; non-trivial = offset != 0 and (output > 64 KiB or asked while the producer runs)"
 
